@@ -132,6 +132,9 @@ func printExpr(b *strings.Builder, ex ast.Expr) error {
 
 func (e *Exec) refOfVal(v Val) Term {
 	if e.reg.sortOf(v.T) == "Any" {
+		if r, ok := e.boxOf[v.Term]; ok {
+			return r
+		}
 		return app("ref", v.Term)
 	}
 	return e.asTerm(v)
@@ -610,6 +613,8 @@ func (e *Exec) resolveType(env *Env, ex ast.Expr) (types.Type, error) {
 func (e *Exec) evalQuant(env *Env, q string, fl *ast.FuncLit) (Val, error) {
 	nenv := env.clone()
 	var decls []string
+	var syms []string
+	var sorts []string
 	for _, fld := range fl.Type.Params.List {
 		t, err := e.resolveType(env, fld.Type)
 		if err != nil {
@@ -619,6 +624,8 @@ func (e *Exec) evalQuant(env *Env, q string, fl *ast.FuncLit) (Val, error) {
 			e.nfresh++
 			sym := fmt.Sprintf("q_%s_%d", n.Name, e.nfresh)
 			decls = append(decls, fmt.Sprintf("(%s %s)", sym, e.reg.sortOf(t)))
+			syms = append(syms, sym)
+			sorts = append(sorts, e.reg.sortOf(t))
 			nenv.vars[n.Name] = Val{T: t, Term: sym}
 		}
 	}
@@ -637,7 +644,40 @@ func (e *Exec) evalQuant(env *Env, q string, fl *ast.FuncLit) (Val, error) {
 	if err != nil {
 		return Val{}, err
 	}
-	return Val{T: tBool, Term: fmt.Sprintf("(%s (%s) %s)", q, strings.Join(decls, " "), body)}, nil
+	qt := fmt.Sprintf("(%s (%s) %s)", q, strings.Join(decls, " "), body)
+	if len(syms) == 1 && sorts[0] == "Int" && e.inQuant == 0 && strings.Contains(body, "(+ ") {
+		// name the quantified formula and register it for index instantiation
+		qs := e.define("Q", "Bool", qt)
+		sym := syms[0]
+		e.registerIntQuant(qs, func(t Term) Term { return substSym(body, sym, t) }, q == "forall")
+		return Val{T: tBool, Term: qs}, nil
+	}
+	return Val{T: tBool, Term: qt}, nil
+}
+
+// substSym replaces every occurrence of the symbol sym (as a whole token) in text by t.
+func substSym(text, sym, t Term) Term {
+	var b strings.Builder
+	i := 0
+	for i < len(text) {
+		j := strings.Index(text[i:], sym)
+		if j < 0 {
+			b.WriteString(text[i:])
+			break
+		}
+		j += i
+		end := j + len(sym)
+		before := j == 0 || text[j-1] == '(' || text[j-1] == ' ' || text[j-1] == ')'
+		after := end == len(text) || text[end] == ')' || text[end] == ' ' || text[end] == '('
+		b.WriteString(text[i:j])
+		if before && after {
+			b.WriteString(t)
+		} else {
+			b.WriteString(sym)
+		}
+		i = end
+	}
+	return b.String()
 }
 
 func (e *Exec) evalCall(env *Env, x *ast.CallExpr) (Val, error) {
